@@ -3,6 +3,8 @@
 // records on its own copy of the mesh taken before the pass (positions, triangles, labels, momenta) and requires the
 // cell after the pass to equal the shadow: positions bit for bit, triangles and labels exactly, momenta to rounding.
 #include "common/celltools.hpp"
+#include <unordered_map>
+
 #include "common/engine.hpp"
 #include "common/meshgen.hpp"
 
@@ -103,22 +105,34 @@ struct ShadowTri {
     unsigned n[3];
     unsigned label;
     bool from_swap;
+    bool dead = false;
 };
 struct Shadow {
     std::map<unsigned, std::array<double, 3>> pos;  // live nodes
     std::map<unsigned, V3> mom;
-    std::vector<ShadowTri> tris;
-    int find_tris(unsigned a, unsigned b, int out[2]) const {
-        int k = 0;
-        for (size_t i = 0; i < tris.size(); i++) {
-            bool ha = false, hb = false;
-            for (unsigned v : tris[i].n) ha |= v == a, hb |= v == b;
-            if (ha && hb) {
-                if (k < 2) out[k] = (int)i;
-                k++;
-            }
-        }
+    std::vector<ShadowTri> tris;                          // including dead ones (a pass may perform 1e5 operations: no rebuilding)
+    std::unordered_map<unsigned, std::vector<int>> idx;   // node -> triangles that contain(ed) it; entries are verified on use
+    void index(int i) {
+        for (unsigned v : tris[i].n) idx[v].push_back(i);
+    }
+    size_t live_tris() const {
+        size_t k = 0;
+        for (auto& t : tris) k += !t.dead;
         return k;
+    }
+    int find_tris(unsigned a, unsigned b, int out[2]) const {
+        std::vector<int> found;
+        auto it = idx.find(a);
+        if (it == idx.end()) return 0;
+        for (int i : it->second) {
+            const ShadowTri& t = tris[i];
+            if (t.dead) continue;
+            bool ha = false, hb = false;
+            for (unsigned v : t.n) ha |= v == a, hb |= v == b;
+            if (ha && hb && std::find(found.begin(), found.end(), i) == found.end()) found.push_back(i);
+        }
+        for (size_t k = 0; k < found.size() && k < 2; k++) out[k] = found[k];
+        return (int)found.size();
     }
 };
 
@@ -210,6 +224,7 @@ static std::string run(const Case& k, vf::Ctx& ctx) {
                 }
             auto& fl = cell_tester::faces(C);
             for (auto& t : ct::live_triangles(C)) sh.tris.push_back({{t[0], t[1], t[2]}, cell_tester::face_type(fl[t[3]]), false});
+            for (size_t i = 0; i < sh.tris.size(); i++) sh.index((int)i);
         }
         const TriMesh before = ct::snapshot(C);
         const std::vector<node> nodes_before = cell_tester::nodes(C);
@@ -251,7 +266,9 @@ static std::string run(const Case& k, vf::Ctx& ctx) {
         for (const auto& op : g_trace) {
             if (getenv("VERIF_DEBUG")) {
                 fprintf(stderr, "op kind=%d a=%u b=%u new=%u | shadow tris:", op.kind, op.id_a, op.id_b, op.new_id);
-                for (auto& t : sh.tris) fprintf(stderr, " (%u,%u,%u:%u)", t.n[0], t.n[1], t.n[2], t.label);
+                if (sh.tris.size() < 200)
+                    for (auto& t : sh.tris)
+                        if (!t.dead) fprintf(stderr, " (%u,%u,%u:%u)", t.n[0], t.n[1], t.n[2], t.label);
                 fprintf(stderr, "\n");
             }
             if (op.cell_ptr != (const void*)c.get()) return "trace record for another cell";
@@ -296,7 +313,9 @@ static std::string run(const Case& k, vf::Ctx& ctx) {
                         if (v == op.id_b) v = op.new_id;
                     for (unsigned& v : u.n)
                         if (v == op.id_a) v = op.new_id;
+                    sh.idx[op.new_id].push_back(tt[which]);
                     sh.tris.push_back(u);
+                    sh.index((int)sh.tris.size() - 1);
                 }
             } else if (op.kind == 1) {  // merge
                 nmerge++;
@@ -313,15 +332,21 @@ static std::string run(const Case& k, vf::Ctx& ctx) {
 #endif
                 sh.pos.erase(op.id_a), sh.pos.erase(op.id_b);
                 sh.pos[op.new_id] = mid;
-                std::vector<ShadowTri> keep;
-                for (size_t i = 0; i < sh.tris.size(); i++) {
-                    if ((int)i == tt[0] || (int)i == tt[1]) continue;
-                    ShadowTri t = sh.tris[i];
-                    for (unsigned& v : t.n)
-                        if (v == op.id_a || v == op.id_b) v = op.new_id;
-                    keep.push_back(t);
+                sh.tris[tt[0]].dead = sh.tris[tt[1]].dead = true;
+                for (unsigned old : {op.id_a, op.id_b}) {
+                    auto it = sh.idx.find(old);
+                    if (it == sh.idx.end()) continue;
+                    std::vector<int> lst = it->second;
+                    sh.idx.erase(old);  // the slot may be recycled by a later operation
+                    for (int i : lst) {
+                        ShadowTri& t = sh.tris[i];
+                        if (t.dead) continue;
+                        bool touched = false;
+                        for (unsigned& v : t.n)
+                            if (v == old) v = op.new_id, touched = true;
+                        if (touched) sh.idx[op.new_id].push_back(i);
+                    }
                 }
-                sh.tris.swap(keep);
             } else {  // swap: (a,b,c),(a,b,d) -> (a,d,c),(b,c,d); labels of the new faces are not constrained by the statement
                 nswap++;
                 if (!ps.swap) return "edge swap performed although swapping is disabled";
@@ -332,6 +357,7 @@ static std::string run(const Case& k, vf::Ctx& ctx) {
                     if (v != op.id_a && v != op.id_b) dn = v;
                 sh.tris[tt[0]] = {{op.id_a, dn, cn}, 0, true};
                 sh.tris[tt[1]] = {{op.id_b, cn, dn}, 0, true};
+                sh.index(tt[0]), sh.index(tt[1]);
             }
         }
         // ---- compare the cell with the shadow
@@ -368,11 +394,12 @@ static std::string run(const Case& k, vf::Ctx& ctx) {
             // triangles are compared as multisets per node set (two triangles may share all three nodes when the
             // cell has been collapsed to a dihedron)
             std::map<std::array<unsigned, 3>, std::vector<const ShadowTri*>> want;
-            for (auto& t : sh.tris) want[sorted3(t.n[0], t.n[1], t.n[2])].push_back(&t);
+            for (auto& t : sh.tris)
+                if (!t.dead) want[sorted3(t.n[0], t.n[1], t.n[2])].push_back(&t);
             auto& fl = cell_tester::faces(C);
             auto lt = ct::live_triangles(C);
-            if (lt.size() != sh.tris.size()) {
-                os << "pass " << pass_no << ": " << lt.size() << " triangles after the pass, the replayed operations leave " << sh.tris.size();
+            if (lt.size() != sh.live_tris()) {
+                os << "pass " << pass_no << ": " << lt.size() << " triangles after the pass, the replayed operations leave " << sh.live_tris();
                 return os.str();
             }
             std::map<std::array<unsigned, 3>, std::vector<unsigned>> got;
